@@ -492,7 +492,7 @@ def rand_solver_mech(rng, conservative=True, with_atol=False, max_spec=5):
             ys.append(left / w[prods[-1]])
         else:
             ys = [rng.choice([0.25, 0.5, 1.0, 1.5, 2.0]) for _ in prods]
-        rxns.append((rng.choice([0, 0, 0, 1]), reactants, list(zip(prods, ys))))
+        rxns.append((rng.choice([0, 0, 0, 0, 1, 2]), reactants, list(zip(prods, ys))))
     return names, atol, w, rxns
 
 
@@ -583,7 +583,7 @@ def gen_slv_cfg(rng, tier, purpose, n_quick, n_thorough):
     for kk in range(vol(tier, n_quick, n_thorough)):
         kind = "slvr" if rng.random() < 0.6 else "slvb"
         names, atol, w, rxns = rand_solver_mech(rng, conservative=(purpose != "c10" or rng.random() < 0.5),
-                                                with_atol=(purpose == "c14"))
+                                                with_atol=(purpose == "c14" or rng.random() < 0.4))
         ns = len(names)
         ncells = rng.choice([1, 1, 2, 3, 5, 5, 9, 17])
         clamp = 0 if purpose == "c09" else 1
@@ -604,7 +604,7 @@ def gen_slv_cells(rng, tier):
     out = []
     for _ in range(vol(tier, 400, 8000)):
         kind = "slvr" if rng.random() < 0.6 else "slvb"
-        names, atol, w, rxns = rand_solver_mech(rng)
+        names, atol, w, rxns = rand_solver_mech(rng, with_atol=(rng.random() < 0.6))
         ns = len(names)
         pt = solver_problem_tokens(rng, ns, rxns, 1, kind)
         cfg = rand_config(rng, ns)
@@ -621,7 +621,7 @@ def gen_slv_reuse(rng, tier):
     out = []
     for _ in range(vol(tier, 300, 6000)):
         kind = "slvr" if rng.random() < 0.6 else "slvb"
-        names, atol, w, rxns = rand_solver_mech(rng)
+        names, atol, w, rxns = rand_solver_mech(rng, with_atol=(rng.random() < 0.5))
         ns = len(names)
         cfg = rand_config(rng, ns)
         ncells = rng.choice([1, 2, 3, 5, 9])
@@ -698,7 +698,9 @@ def gen_vsem(rng, tier):
     out = []
     # corpus-like seeds first: the shortest sequences that reach a Solve on a copy / moved-to State
     seeds = [[(0, 0), (1, 1, 0), (6, 1)], [(0, 0), (2, 2, 0), (6, 2), (6, 0)], [(0, 0), (3, 1, 0), (6, 1)],
-             [(0, 0), (4, 1, 0), (6, 1), (1, 2, 1), (6, 2)], [(0, 0), (1, 1, 0), (1, 2, 1), (6, 2)], [(0, 1), (7,), (6, 1)]]
+             [(0, 0), (4, 1, 0), (6, 1), (1, 2, 1), (6, 2)], [(0, 0), (1, 1, 0), (1, 2, 1), (6, 2)], [(0, 1), (7,), (6, 1)],
+             # a parameter set with more stages than the State was created for; an older State after such a change
+             [(0, 0), (8, 0, 1)], [(0, 1), (8, 1, 0), (0, 0), (8, 1, 1), (6, 0)], [(0, 0), (8, 0, 0), (0, 1), (1, 2, 1), (8, 2, 1), (6, 1)]]
     for kind in (0, 1):
         for L in (0, 3):
             for sq in seeds:
@@ -709,7 +711,7 @@ def gen_vsem(rng, tier):
         n = rng.randrange(3, 13 if tier != "thorough" else 31)
         ops = [(0, rng.randrange(4))]
         for _ in range(n):
-            o = rng.choice([0, 1, 1, 2, 2, 3, 4, 5, 6, 6, 6, 7])
+            o = rng.choice([0, 1, 1, 2, 2, 3, 4, 5, 6, 6, 6, 7, 8, 8])
             if o == 0:
                 ops.append((0, rng.randrange(4)))
             elif o in (1, 2, 3, 4):
@@ -718,6 +720,8 @@ def gen_vsem(rng, tier):
                 ops.append((5, rng.randrange(4), rng.randrange(6)))
             elif o == 6:
                 ops.append((6, rng.randrange(4)))
+            elif o == 8:
+                ops.append((8, rng.randrange(4), rng.randrange(2)))
             else:
                 ops.append((7,))
         out.append("vsem %d %d %d %s" % (kind, L, len(ops), " ".join(" ".join(map(str, o)) for o in ops)))
@@ -842,4 +846,58 @@ def gen_jit(rng, tier):
         y = [rng.randrange(0, 6) for _ in range(ncells * nspec)]
         t = [L, ncells, nspec] + mech_tokens(vmap, rxns) + rc + y + [rng.choice([1, 3, 5]), rng.choice([-4, -2, 0, 2]), rng.randrange(5)]
         out.append("jitsolver " + " ".join(map(str, t)))
+    return out
+
+
+# ratef type T P rho p1..p8 : one built-in rate constant against its documented formula
+def gen_ratef(rng, tier):
+    out = []
+    def f(x):
+        return repr(float(x))
+    for _ in range(vol(tier, 700, 20000)):
+        typ = rng.randrange(7)
+        T = rng.uniform(150.0, 350.0)
+        P = rng.uniform(1.0, 1.1e5)
+        rho = 10 ** rng.uniform(-2, 2)
+        sgn = lambda: rng.choice([-1.0, 1.0])
+        if typ == 0:
+            p = [10 ** rng.uniform(-12, 2), rng.choice([0.0, 0.0, 1.0, 2.0, -1.0, -2.5, 0.5, -0.5, 3.2]),
+                 rng.choice([0.0, 0.0, 1.0]) * sgn() * rng.uniform(50, 2500), rng.choice([300.0, 300.0, 298.0, 1.0, 273.15]),
+                 rng.choice([0.0, 0.0, 1.0]) * 10 ** rng.uniform(-8, -4), 0, 0, 0]
+        elif typ in (1, 2):
+            p = [10 ** rng.uniform(-6, 1), rng.choice([0.0, -1.0, -2.6, 1.5, 4.0]), rng.choice([0.0, 1.0]) * sgn() * rng.uniform(10, 900),
+                 10 ** rng.uniform(-3, 3), rng.choice([0.0, -0.5, 1.0, -3.1]), rng.choice([0.0, 1.0]) * sgn() * rng.uniform(10, 900),
+                 rng.choice([0.6, 0.6, 0.35, 0.9, 0.41]), rng.choice([1.0, 1.0, 0.75, 1.3, 2.0])]
+        elif typ == 3:
+            p = [10 ** rng.uniform(-12, 2), sgn() * rng.uniform(0, 2500), sgn() * 10 ** rng.uniform(3, 8), 0, 0, 0, 0, 0]
+        elif typ == 4:
+            p = [10 ** rng.uniform(-12, 2), sgn() * rng.uniform(0, 2500), rng.uniform(0.01, 0.99), rng.randrange(1, 12), rng.randrange(2), 0, 0, 0]
+        elif typ == 5:
+            p = [sgn() * 10 ** rng.uniform(-3, 3), sgn() * 10 ** rng.uniform(-6, 6), 0, 0, 0, 0, 0, 0]
+        else:
+            p = [rng.uniform(0.001, 1.0), 10 ** rng.uniform(-6, -3), rng.uniform(0.01, 0.3), 10 ** rng.uniform(-8, -5), 10 ** rng.uniform(4, 10), 0, 0, 0]
+        out.append("ratef %d %s %s %s %s" % (typ, f(T), f(P), f(rho), " ".join(f(x) for x in p)))
+    return out
+
+
+# slvr|slvb acc L csc lu ncells table rtol dt h_start k1[n] k2[n] a0[n] : accuracy on the chain A -> B -> C
+def gen_slv_acc(rng, tier):
+    out = []
+    for _ in range(vol(tier, 300, 6000)):
+        kind = "slvr" if rng.random() < 0.6 else "slvb"
+        L = rng.choice([0, 2, 3, 4])
+        ncells = rng.choice(list(range(1, (3 * L + 2) if L else 5)) + [9])
+        table = rng.randrange(5)
+        rtol = rng.choice([1e-4, 1e-6, 1e-8])
+        dt = rng.choice([0.5, 1.0, 3.0, 10.0])
+        if kind == "slvb":
+            h_start = rng.choice([0.0, 0.0, 0.3, 0.25, 1.0, 0.07]) * (dt if rng.random() < 0.5 else 1.0)
+        else:
+            h_start = rng.choice([0.0, 0.0, 0.0, 1e-3])
+        k1 = [10 ** rng.uniform(-1.3, 0.7) for _ in range(ncells)]
+        k2 = [k * rng.choice([0.2, 0.4, 2.5, 6.0]) for k in k1]
+        a0 = [rng.uniform(0.5, 2.0) for _ in range(ncells)]
+        t = [kind, "acc", str(L), str(rng.randrange(2)), str(rng.randrange(4)), str(ncells), str(table), fnum(rtol), fnum(dt),
+             fnum(h_start)] + [fnum(x) for x in k1] + [fnum(x) for x in k2] + [fnum(x) for x in a0]
+        out.append(" ".join(t))
     return out
